@@ -53,10 +53,10 @@ type Workload struct {
 	// freshly exec'ed process (the literal "fresh process state") and compare.
 	FreshProcess bool                `json:"fresh_process,omitempty"`
 	Sets         []map[string]string `json:"sets"`
-	Sources []string            `json:"sources"`
-	V2      []string            `json:"v2"`
-	Points  []corpus.PointT     `json:"points"`
-	Ops     []Op                `json:"ops"`
+	Sources      []string            `json:"sources"`
+	V2           []string            `json:"v2"`
+	Points       []corpus.PointT     `json:"points"`
+	Ops          []Op                `json:"ops"`
 }
 
 type Prop struct{}
@@ -652,4 +652,3 @@ func (Prop) Shrink(p *core.Plan) []*core.Plan {
 	}
 	return out
 }
-
